@@ -229,9 +229,9 @@ theorem C06_latest_wins_v9 (st : PState) (pre post : List V9Template) (t : V9Tem
     { insertV9Templates st pre with
       v9T := amInsert t.id t (insertV9Templates st pre).v9T, v9O := amErase t.id (insertV9Templates st pre).v9O } hlast
   rw [a1, a2]
-  refine ⟨by simp [amLookup_amInsert], fun hs => ?_⟩
+  refine ⟨by simp [amLookup_amInsert_a2], fun hs => ?_⟩
   simp only
-  apply amLookup_amErase_self
+  apply amLookup_amErase_self_a2
   -- erasures keep the sibling map sorted
   clear a1 a2
   induction pre generalizing st with
@@ -255,9 +255,9 @@ theorem C06_latest_wins_v9_opt (st : PState) (pre post : List V9OptTemplate) (t 
     { insertV9OptTemplates st pre with
       v9O := amInsert t.id t (insertV9OptTemplates st pre).v9O, v9T := amErase t.id (insertV9OptTemplates st pre).v9T } hlast
   rw [a1, a2]
-  refine ⟨by simp [amLookup_amInsert], fun hs => ?_⟩
+  refine ⟨by simp [amLookup_amInsert_a2], fun hs => ?_⟩
   simp only
-  apply amLookup_amErase_self
+  apply amLookup_amErase_self_a2
   clear a1 a2
   induction pre generalizing st with
   | nil => exact hs
@@ -280,8 +280,8 @@ theorem C06_latest_wins_ipfix (c : Config) (st st' : PState) (id : Nat) (b : Byt
     grind
   obtain ⟨e, hv⟩ := e
   subst e
-  refine ⟨by simp [amLookup_amInsert], fun hs => amLookup_amErase_self _ _ hs, fun k hk => ?_, hv⟩
-  simp [amLookup_amInsert, hk, amLookup_amErase_ne hk]
+  refine ⟨by simp [amLookup_amInsert_a2], fun hs => amLookup_amErase_self_a2 _ _ hs, fun k hk => ?_, hv⟩
+  simp [amLookup_amInsert_a2, hk, amLookup_amErase_ne_a2 hk]
 
 theorem C06_latest_wins_ipfix_opt (c : Config) (st st' : PState) (id : Nat) (b : Bytes) (t : IpOptTemplate)
     (h : ipParseBody c st id b = (st', .ok (.optTemplate t))) :
@@ -293,8 +293,8 @@ theorem C06_latest_wins_ipfix_opt (c : Config) (st st' : PState) (id : Nat) (b :
     grind
   obtain ⟨e, hv⟩ := e
   subst e
-  refine ⟨by simp [amLookup_amInsert], fun hs => amLookup_amErase_self _ _ hs, fun k hk => ?_, hv⟩
-  simp [amLookup_amInsert, hk, amLookup_amErase_ne hk]
+  refine ⟨by simp [amLookup_amInsert_a2], fun hs => amLookup_amErase_self_a2 _ _ hs, fun k hk => ?_, hv⟩
+  simp [amLookup_amInsert_a2, hk, amLookup_amErase_ne_a2 hk]
 
 /-- the V9 body parser installs exactly the templates it reports, in order -/
 theorem C06_v9_templates_installed (c : Config) (st st' : PState) (id : Nat) (b : Bytes) (ts : List V9Template) (pad : Bytes)
